@@ -484,6 +484,7 @@ def cmd_check(prop, tier, runs, jobs, seed):
     known = load_known()
     total_runs = runs or cfg[tier]
     all_stats, found, harness_msgs, known_hits = {}, [], [], {}
+    known_first = {}
     known_lines = []
     build_s = 0.0
     per_flavour = {}
@@ -522,6 +523,7 @@ def cmd_check(prop, tier, runs, jobs, seed):
                         pre = match_known(prop, item, known)
                         if pre:
                             known_hits[pre["id"]] = known_hits.get(pre["id"], 0) + 1
+                            known_first.setdefault(pre["id"], item)
                         else:
                             raw.append(item)
                     stats += s
@@ -578,6 +580,19 @@ def cmd_check(prop, tier, runs, jobs, seed):
                 known_hits[res["entry"]["id"]] = known_hits.get(res["entry"]["id"], 0) + len(items)
             else:
                 found.append((res, len(items)))
+    if os.environ.get("VERIF_REPIN"):
+        # maintenance (after a generator change): minimise one instance of every listed finding that was met and pin it again
+        for kid, item in known_first.items():
+            res = process_violation(cfg["flavours"][0], prop, seed, item, known, None)
+            if res["kind"] == "known" and res["entry"]["id"] == kid:
+                rp = res["replay"]
+                out = dict(property=prop, flavour=rp["flavour"], cls=rp["cls"], site=rp["site"], tags=rp["tags"], detail=rp["detail"], event_hash=rp["event_hash"],
+                           lanes=rp["lanes"], lane_sizes=rp["lane_sizes"], plan=rp["plan"])
+                with open(os.path.join(VERIF, "findings", kid + ".replay.json"), "w") as f:
+                    json.dump(out, f, indent=1)
+                log("re-pinned %s from run %d" % (kid, item["idx"]))
+            else:
+                log("could not re-pin %s from run %d: %s" % (kid, item["idx"], res["kind"]))
     # report
     for line in sorted(set(known_lines)):
         log(line)
